@@ -414,7 +414,7 @@ def reach_under (repo, module, g, env, cls=None, start=None, exc=False, local_de
     n = st.pop()
     succ = n.succ
     if n.kind == 'cond':
-      try: v = bool(eval_env(repo, module, n.ast, env, cls))
+      try: v = bool(eval_env2(repo, module, n.ast, env, cls))
       except _Unknown: v = None
       except Exception: v = None
       if v is not None:
@@ -422,4 +422,114 @@ def reach_under (repo, module, g, env, cls=None, start=None, exc=False, local_de
     for m, l in succ:
       if l == 'exc' and not exc: continue
       if m not in seen: seen.add(m); st.append(m)
+  return seen
+
+# ---------------------------------------------------------------------------
+# constant propagation along enumerated paths
+
+_BUILTIN_VALUES = {'tuple': tuple, 'list': list, 'dict': dict, 'int': int, 'str': str, 'bytes': bytes,
+                   'bool': bool, 'True': True, 'False': False, 'None': None, 'set': set}
+
+def _eval_call (repo, module, e, env, cls):
+  fn = e.func
+  if isinstance(fn, ast.Name) and not e.keywords:
+    args = [eval_env2(repo, module, a, env, cls) for a in e.args]
+    if fn.id == 'len' and len(args) == 1: return len(args[0])
+    if fn.id == 'type' and len(args) == 1: return type(args[0])
+    if fn.id == 'isinstance' and len(args) == 2: return isinstance(args[0], args[1])
+    if fn.id == 'bool' and len(args) == 1: return bool(args[0])
+  raise _Unknown()
+
+def eval_env2 (repo, module, e, env, cls=None):
+  """eval_env plus len/type/isinstance on known values, constant subscripts
+  and builtin type names"""
+  hit, v = env.lookup(e)
+  if hit: return v
+  if isinstance(e, ast.Name) and e.id in _BUILTIN_VALUES: return _BUILTIN_VALUES[e.id]
+  if isinstance(e, ast.Call): return _eval_call(repo, module, e, env, cls)
+  if isinstance(e, ast.Subscript):
+    base = eval_env2(repo, module, e.value, env, cls); idx = eval_env2(repo, module, e.slice, env, cls)
+    try: return base[idx]
+    except Exception: raise _Unknown()
+  if isinstance(e, (ast.UnaryOp, ast.BoolOp, ast.BinOp, ast.Compare, ast.Tuple, ast.List, ast.Set)):
+    # re-use eval_env's structure but recurse through eval_env2
+    return _eval_struct(repo, module, e, env, cls)
+  return eval_env(repo, module, e, env, cls)
+
+def _eval_struct (repo, module, e, env, cls):
+  class _E(Env):
+    pass
+  # wrap: evaluate children with eval_env2 by pre-computing them into a derived env
+  sub = Env(dict(env.exact), list(env.matchers))
+  for ch in ast.iter_child_nodes(e):
+    if isinstance(ch, ast.expr):
+      try: sub.exact[norm(ch)] = eval_env2(repo, module, ch, env, cls)
+      except _Unknown: pass
+  return eval_env(repo, module, e, sub, cls)
+
+def paths_under (repo, module, g, env, start, stops, cls=None, limit=200, track=True):
+  """enumerate paths start -> any node in `stops` following only branches
+  consistent with env; simple local assignments update a per-path copy of the
+  environment (constant propagation; unknown values drop the binding).
+  Returns list of (nodes tuple, final Env)."""
+  out = []
+  stops = set(stops)
+  stack = [(start, (start,), env, frozenset())]
+  while stack and len(out) < limit:
+    n, path, e, used = stack.pop()
+    if n in stops and len(path) > 1:
+      out.append((path, e)); continue
+    succ = n.succ
+    if n.kind == 'cond':
+      try: v = bool(eval_env2(repo, module, n.ast, e, cls))
+      except _Unknown: v = None
+      except Exception: v = None
+      if v is not None: succ = [(m, l) for m, l in n.succ if l == v]
+    ne = e
+    if track and n.kind == 'stmt' and isinstance(n.ast, (ast.Assign, ast.AugAssign)) and n is not start:
+      ne = _assign_env(repo, module, n.ast, e, cls)
+    for m, l in succ:
+      if l == 'exc': continue
+      key = (n.id, m.id)
+      if key in used: continue
+      stack.append((m, path + (m,), ne, used | {key}))
+  return out
+
+def _assign_env (repo, module, st, env, cls):
+  ne = Env(dict(env.exact), list(env.matchers))
+  if isinstance(st, ast.Assign) and len(st.targets) == 1 and isinstance(st.targets[0], ast.Name):
+    nm = st.targets[0].id
+    try: val = eval_env2(repo, module, st.value, env, cls); known = True
+    except _Unknown: known = False
+    except Exception: known = False
+    _kill(ne, nm)
+    if known: ne.exact[nm] = val
+    return ne
+  # anything else: kill every name stored
+  for t in (st.targets if isinstance(st, ast.Assign) else [st.target]):
+    for tt in _flatten(t):
+      if isinstance(tt, ast.Name): _kill(ne, tt.id)
+      elif isinstance(tt, ast.Attribute): ne.exact.pop(norm(tt), None)
+  return ne
+
+def _kill (env, nm):
+  """drop bindings whose expression reads the *variable* nm (not an attribute
+  that merely has the same name)"""
+  for k in list(env.exact):
+    try:
+      t = ast.parse(k, mode='eval')
+      hit = any(isinstance(x, ast.Name) and x.id == nm for x in ast.walk(t))
+    except SyntaxError:
+      hit = nm in k
+    if hit: del env.exact[k]
+
+def reach_under_cp (repo, module, g, env, cls=None, start=None, limit=400):
+  """like reach_under but with constant propagation of simple local
+  assignments along enumerated paths (each CFG edge at most once per path).
+  Paths stop at exit, at raise statements and at returns."""
+  start = start or g.entry
+  stops = [g.exit, g.raise_exit] + [n for n in g.nodes if n.kind in ('raise_stmt',)]
+  seen = set()
+  for path, fe in paths_under(repo, module, g, env, start, stops, cls, limit=limit):
+    seen.update(path)
   return seen
